@@ -92,10 +92,18 @@ def gen_query(rng, G):
     return mets, dims
 
 
-def real_layer(G):
+def real_layer(G, interleaved=False):
+    """interleaved: the layer is used between registrations (a join-path lookup and a query over the models registered so far), as an application
+    that registers models lazily does -- relationships may name models registered later"""
     from sidemantic import Dimension, Metric, Model, Relationship
     L = dbutil.fresh_layer()
-    for n in G["names"]:
+    for k, n in enumerate(G["names"]):
+        if interleaved and k:
+            try:
+                L.graph.build_adjacency()
+                L.compile(metrics=["%s.n" % G["names"][0]], dimensions=["%s.status" % G["names"][k - 1]])
+            except Exception:
+                pass
         L.add_model(Model(name=n, table=n, primary_key="id", relationships=[Relationship(name=t, type=ty) for t, ty in G["rels"][n]],
                           dimensions=[Dimension(name="status", type="categorical"), Dimension(name="created", type="time", granularity="day"), Dimension(name="flag", type="boolean")],
                           metrics=[Metric(name="n", agg="count"), Metric(name="total", agg="sum", sql="amount")]))
@@ -157,6 +165,10 @@ def part_a(c, n):
         G = gen_graph(c.rng)
         for _ in range(6):
             cases.append((G, gen_query(c.rng, G)))
+        # every declared relationship, used by itself: a metric of one end by a dimension of the other must be accepted
+        for a in G["names"]:
+            for b, _ty in G["rels"][a]:
+                cases.append((G, (["%s.n" % a], ["%s.status" % b])))
     # fixed corpus: two disconnected models, the second reached only through a granular time dimension / a graph-level metric
     G0 = dict(names=["orders", "visits"], rels={"orders": [], "visits": []}, gm=[("g_total", "derived", "visits.total")])
     cases[:0] = [(G0, (["orders.n"], ["visits.created__month"])), (G0, ([], ["orders.status", "visits.created__week"])), (G0, (["orders.n"], ["visits.status"])),
@@ -172,7 +184,8 @@ def part_a(c, n):
     for i, (G, (mets, dims)) in enumerate(cases):
         L = layers.get(id(G))
         if L is None:
-            L = layers[id(G)] = real_layer(G)
+            L = layers[id(G)] = real_layer(G, interleaved=len(layers) % 2 == 1)
+            stats["interleaved_layers"] = stats.get("interleaved_layers", 0) + (len(layers) % 2 == 0)
         real = [classify(e) for e in validate_query(mets, dims, L.graph)]
         for e in real:
             k = e.split(":")[0]
@@ -193,6 +206,9 @@ def part_a(c, n):
                 raised = None
             except Exception as e:
                 raised = e
+            if not expect_reject and raised is not None:
+                c.violation("a well-formed query over accepted definitions is refused or fails to compile (%s)" % type(raised).__name__,
+                            {"kind": "accept", "graph": G, "metrics": mets, "dimensions": dims, "interleaved_registration": True, "raised": repr(raised)[:300]})
             if expect_reject and not isinstance(raised, QueryValidationError):
                 c.violation("an ill-formed query is not rejected with a validation error (%s)" % (type(raised).__name__ if raised else "it compiled"),
                             {"kind": "reject", "graph": G, "metrics": mets, "dimensions": dims, "expected_errors": model or real, "raised": repr(raised)[:300]})
